@@ -231,7 +231,7 @@ def oracle (line : String) : String :=
           if recs.length != steps.length then "reject malformed-observation"
           else if !((steps.zip recs).all fun s => s.2.events.all (·.1 == s.1.2)) then "reject foreign-id" else
           let outs := recs.map fun r => ({ res := r.res, effects := r.effects, events := r.events.map (·.2) } : Out)
-          match S.Timer.lverdict kinds ids steps idsOk outs with
+          match S.Timer.lverdict true kinds ids steps idsOk outs with
           | none => "ok"
           | some key => "reject " ++ key
   | _ => "bad-case"
